@@ -2002,6 +2002,7 @@ type c09env struct {
 	locks   int64 // masks cleared on both sides in Matches
 	sep     string
 	ansi    map[string]types.Type
+	fiveRes *c09fiveRes // C09.k (c09k.go): full modifier-subset product, evaluated once
 }
 
 type c09named struct {
@@ -2896,6 +2897,23 @@ func (e *c09env) matchWitnesses() (five, lock, errs []string, n int) {
 			}
 		}
 	}
+	// the missing dimension of the single-bit search: every subset of the five on the event x every subset
+	// on the binding, for events with Text (c09k.go; shared with C09.k)
+	if res := e.fiveProduct(); res.why == "" {
+		for _, cs := range res.cases {
+			n += cs.n
+			for _, p := range cs.problems {
+				if len(five) < 3 && strings.Contains(p, "differ") {
+					five = append(five, p)
+				}
+			}
+			for _, er := range cs.errs {
+				if len(errs) < 3 {
+					errs = append(errs, er)
+				}
+			}
+		}
+	}
 	return
 }
 
@@ -2959,7 +2977,7 @@ func (e *c09env) ruleD() {
 		case len(errs) > 0:
 			c.undecided("C09.d", p.key, p.pos, "%s; and Matches cannot be interpreted: %s", p.reason, errs[0])
 		default:
-			c.ok("C09.d", p.key, p.pos, "not proved structurally (%s); decided by interpretation: no counterexample among %d evaluated binding/event pairs (single-bit differences in every modifier, both lock bits toggled on both sides)", p.reason, n)
+			c.ok("C09.d", p.key, p.pos, "not proved structurally (%s); decided by interpretation: no counterexample among %d evaluated binding/event pairs (single-bit differences in every modifier, the full subset product of Ctrl/Alt/Super/Hyper/Meta on events with text, both lock bits toggled on both sides)", p.reason, n)
 		}
 	}
 }
